@@ -44,7 +44,8 @@ def finite(v):
     return not (isinstance(v, list) and v[1] == 0)
 
 
-def rnd_arr(r, dt=None, lens=None, finite_only=False, distinct=False):
+def rnd_arr(r, dt=None, lens=None, finite_only=False, distinct=False, infs=0.0):
+    """infs > 0: a float array without NaN in which that share of the cells is +inf / -inf (repeated infinities included)"""
     dt = dt or r.choice(ALL_DTS)
     lens = rnd_lens(r) if lens is None else lens
     rows = []
@@ -55,6 +56,8 @@ def rnd_arr(r, dt=None, lens=None, finite_only=False, distinct=False):
             if distinct and dt in ("i8", "i4"):
                 v = 10 + k
                 k += 1
+            elif infs and dt[0] == "f" and r.random() < infs:
+                v = [r.choice([1, 1, -1]), 0]
             else:
                 v = rnd_val(r, dt)
                 while finite_only and not finite(v):
@@ -344,7 +347,7 @@ def gen_c07(r):
     lens = rnd_lens(r, 7, 5)
     name = r.choice(["cumsum", "acc_add", "acc_subtract", "acc_bitwise_xor", "sort", "unique", "unique_counts", "diff", "diff"])
     dt = r.choice(["i1", "u1", "i2", "u2", "i4", "i8", "b1", "f8", "f4", "u4"])
-    arr = rnd_arr(r, dt, lens, finite_only=True)
+    arr = rnd_arr(r, dt, lens, finite_only=True, infs=0.3 if r.random() < 0.3 else 0.0)
     n = r.randint(0, 4) if name == "diff" else 0
     return ["scan", name, arr, n], opts_for(r, "scan"), False
 
